@@ -126,6 +126,8 @@ def run(rep, tier):
     n = taint.round_once(rep, db, only_prefix='fpdec::format::')
     rep.assume('NOT decided: the text produced by core::fmt for the template "{}.{:0width$}" and by Formatter::pad_integral (width, fill, alignment, + and 0 flags); '
                'Debug and String::from (C07) are not covered')
+    from . import deps
+    deps.run(rep, tier, ('R',))      # proofs of the summaries this check relies on
     rep.explanation = ('Numeric clause: for all 19 scales x {absent, 0..19, 40} precisions the MIR of Display::fmt is interpreted with a symbolic coefficient and the formatting machinery '
                        'modelled structurally: every path ends in exactly one Formatter::pad_integral(coeff >= 0 of the unrounded value, "", buf); buf is formatted from [int, frac, width] '
                        'with width = min(P,18) (or p), int*10^prec + frac = |x|*10^(prec-p) resp. |Rnd[thread](x/10^(p-prec))| (rounding applied to the signed value, single rounding), '
